@@ -68,7 +68,9 @@ pub trait ItemKind: Clone + PartialEq + Debug + Send + Unpin + 'static {
 
 impl ItemKind for String {
     fn make(i: u64, size: usize, rng: &mut Rng) -> Self {
-        let mut s = format!("m{:06}|", i);
+        // every 5th item starts (and every 7th ends) with a character text code likes to treat specially
+        let lead = if i % 5 == 4 { *rng.pick(&["\u{feff}", "\u{fffe}", " ", "\n", "\u{0}", "\u{301}"]) } else { "" };
+        let mut s = format!("{}m{:06}|", lead, i);
         while s.len() < size {
             s.push((b'a' + rng.below(26) as u8) as char);
         }
@@ -356,6 +358,144 @@ where
     }
 }
 
+
+/// `Publisher::duplicate()` taken in the middle of a stream (with a partially filled batch, if batching is on):
+/// the subscriber must yield every accepted item of both publishers exactly once, each publisher's in order.
+async fn run_duplicate(addr: String, certs: Certs, id: u64, batch: Option<(u32, u64)>, comp: Option<&'static str>, before: usize) -> Outcome {
+    let topic = unique_topic("c03d", id);
+    let mk = |what: &str, e: String| Outcome::Inconclusive(format!("{}: {}", what, e));
+    let sub_client = match lib_client(&addr, &certs, None).await {
+        Ok(c) => c,
+        Err(e) => return mk("connect", e.to_string()),
+    };
+    let pub_client = match lib_client(&addr, &certs, None).await {
+        Ok(c) => c,
+        Err(e) => return mk("connect", e.to_string()),
+    };
+    let pair = comp.map(compression_pair);
+    let mut sb = sub_client.subscriber(&topic).with_decoder(StringCodec);
+    if let Some((_, d)) = &pair {
+        sb = sb.with_decompression(d.clone());
+    }
+    let mut subscriber = match sb.open().await {
+        Ok(s) => s,
+        Err(e) => return mk("open subscriber", e.to_string()),
+    };
+    let mut ab = pub_client.publisher(&topic).with_encoder(StringCodec);
+    if let Some((c, _)) = &pair {
+        ab = ab.with_compression(c.clone());
+    }
+    let mut aux = match ab.open().await {
+        Ok(p) => p,
+        Err(e) => return mk("open auxiliary publisher", e.to_string()),
+    };
+    let mut k = 0u64;
+    let t0 = Instant::now();
+    let mut established = false;
+    while t0.elapsed() < Duration::from_secs(15) {
+        if aux.send(String::sentinel(k)).await.is_err() {
+            return mk("aux send", "error".into());
+        }
+        k += 1;
+        if let Ok(Some(Ok(it))) = tokio::time::timeout(Duration::from_millis(200), subscriber.next()).await {
+            if it.is_sentinel().is_some() {
+                established = true;
+                break;
+            }
+        }
+    }
+    if !established {
+        return Outcome::Inconclusive("precondition not reached: no sentinel arrived".into());
+    }
+    let mut pb = pub_client.publisher(&topic).with_encoder(StringCodec);
+    if let Some((c, _)) = &pair {
+        pb = pb.with_compression(c.clone());
+    }
+    if let Some((size, interval)) = batch {
+        pb = pb.with_batching(BatchConfig::new(size, Duration::from_millis(interval)));
+    }
+    let mut a = match pb.open().await {
+        Ok(p) => p,
+        Err(e) => return mk("open publisher", e.to_string()),
+    };
+    let mut sent_a = vec![];
+    let mut sent_b = vec![];
+    for i in 0..before {
+        let it = format!("a{:04}", i);
+        if let Err(e) = a.send(it.clone()).await {
+            return Outcome::Violated { sig: "send-error".into(), detail: e.to_string() };
+        }
+        sent_a.push(it);
+    }
+    let mut b = match a.duplicate().await {
+        Ok(p) => p,
+        Err(e) => return mk("duplicate()", e.to_string()),
+    };
+    for i in 0..3 {
+        let it = format!("b{:04}", i);
+        if let Err(e) = b.send(it.clone()).await {
+            return Outcome::Violated { sig: "send-error".into(), detail: e.to_string() };
+        }
+        sent_b.push(it);
+        let it = format!("a{:04}", before + i);
+        if let Err(e) = a.send(it.clone()).await {
+            return Outcome::Violated { sig: "send-error".into(), detail: e.to_string() };
+        }
+        sent_a.push(it);
+    }
+    if let Err(e) = a.finish().await {
+        return Outcome::Violated { sig: "finish-error".into(), detail: e.to_string() };
+    }
+    if let Err(e) = b.finish().await {
+        return Outcome::Violated { sig: "finish-error".into(), detail: e.to_string() };
+    }
+    let finished_at = Instant::now();
+    let fence_base = k;
+    let mut got: Vec<String> = vec![];
+    let mut fences = 0;
+    let deadline = Instant::now() + Duration::from_secs(40);
+    loop {
+        if aux.send(String::sentinel(k)).await.is_err() {
+            return mk("aux send (fence)", "error".into());
+        }
+        k += 1;
+        while let Ok(r) = tokio::time::timeout(Duration::from_millis(30), subscriber.next()).await {
+            match r {
+                Some(Ok(it)) => match it.is_sentinel() {
+                    Some(n) if n >= fence_base => fences += 1,
+                    Some(_) => {}
+                    None => got.push(it),
+                },
+                Some(Err(e)) => return Outcome::Violated { sig: "subscriber-error/duplicate".into(), detail: e.to_string() },
+                None => break,
+            }
+        }
+        if fences >= 25 && (got.len() >= sent_a.len() + sent_b.len() || finished_at.elapsed() > Duration::from_secs(3)) {
+            break;
+        }
+        if Instant::now() > deadline {
+            return Outcome::Inconclusive("watchdog: fences did not come back within 40 s".into());
+        }
+    }
+    let ga: Vec<String> = got.iter().filter(|s| s.starts_with('a')).cloned().collect();
+    let gb: Vec<String> = got.iter().filter(|s| s.starts_with('b')).cloned().collect();
+    if ga == sent_a && gb == sent_b {
+        return Outcome::Held { delivered: got.len() };
+    }
+    let kind = if got.len() > sent_a.len() + sent_b.len() { "duplicated" } else if got.len() < sent_a.len() + sent_b.len() { "lost" } else { "reordered" };
+    Outcome::Violated {
+        sig: format!("{}/duplicate-publisher", kind),
+        detail: format!(
+            "publisher A sent {:?}, its duplicate (taken after {} items{}) sent {:?}; the subscriber yielded {:?}",
+            sent_a,
+            before,
+            if batch.is_some() { ", batch partially filled" } else { "" },
+            sent_b,
+            got
+        ),
+    }
+}
+
 fn configs(tier: &str, rng: &mut Rng) -> Vec<Cfg> {
     let thorough = tier == "thorough";
     let comps: Vec<Option<&str>> = vec![None, Some("gzip"), Some("zlib"), Some("zstd"), Some("lz4"), Some("brotli-generic"), Some("brotli-text"), Some("brotli-font"), Some("zlib-9"), Some("zstd-fastest"), Some("gzip-fastest")];
@@ -499,6 +639,23 @@ pub fn run(rep: &mut StageReport, tier: &str, seed: u64) {
                     Err(e) => out.push((chunk[0].clone(), Outcome::Inconclusive(format!("harness task failed: {}", e)))),
                 }
             }
+        }
+        // duplicate() taken mid-stream
+        let dups: Vec<(Option<(u32, u64)>, Option<&'static str>, usize)> = vec![
+            (Some((10, 3_600_000)), None, 2),
+            (Some((4, 3_600_000)), Some("zstd"), 3),
+            (Some((3, 3_600_000)), Some("gzip"), 3),
+            (Some((5, 50)), None, 1),
+            (None, None, 2),
+            (Some((100, 3_600_000)), Some("lz4"), 0),
+        ];
+        for (i, (batch, comp, before)) in dups.into_iter().enumerate() {
+            let cfg = Cfg { codec: "string", compression: comp.map(|s| s.to_string()), batch, count: before + 6, payload: 5, sizes: None, compressible: false, id: 90_000 + i as u64 };
+            let r = match tokio::time::timeout(Duration::from_secs(90), run_duplicate(addr.clone(), certs.clone(), 90_000 + i as u64, batch, comp, before)).await {
+                Ok(o) => o,
+                Err(_) => Outcome::Inconclusive("watchdog: duplicate scenario did not finish within 90 s".into()),
+            };
+            out.push((cfg, r));
         }
         server.stop();
         out
